@@ -333,6 +333,11 @@ package schema
 // ---------------------------------------------------------------------------------------------------------------
 // Generated accessors the event matching rules read (C11): an optional reference is present exactly when its field
 // is set, and the accessor hands back the field itself.
+//@ func (*BoundaryEvent).AttachedToRef
+//@   prop C10
+//@   modifies nothing
+//@   flag emits none
+//@   ensures result != nil && *result == t.AttachedToRefField
 //@ func (*BaseElement).Id
 //@   prop C18
 //@   flag countresult
